@@ -32,6 +32,20 @@ class FileBasedTapeCassette(TapeCassette):
         if not os.path.isfile(file_path):
             raise NoSuchRecording(recording_id)
 
+        recording = self._read_recording_file(file_path)
+        # Different ids can map to the same file name ('/' is replaced by '_'), the file must hold the requested id
+        if recording.id != recording_id:
+            raise NoSuchRecording(recording_id)
+        return recording
+
+    @staticmethod
+    def _read_recording_file(file_path):
+        """
+        :param file_path: Path of recording file
+        :type file_path: str
+        :return: Recording stored in the given file
+        :rtype: playback.recording.Recording
+        """
         with io.open(file_path, "r", encoding="utf-8") as f:
             encoded = f.read()
         deserialized_form = decode(encoded)
@@ -90,8 +104,7 @@ class FileBasedTapeCassette(TapeCassette):
             if not file_name.startswith(category):
                 continue
 
-            recording_id = file_name.split('.')[0]
-            recording = self.get_recording(recording_id)
+            recording = self._read_recording_file(os.path.join(self.directory, file_name))
 
             # File name prefix is not enough, another category may start with the requested category name
             if self.extract_recording_category(recording.id) != category:
